@@ -180,7 +180,7 @@ def build_model():
     os.makedirs(OCAML, exist_ok=True)
     drv = os.path.join(OCAML, "mdriver")
     src_driver = os.path.join(VERIF, "ocaml", "mdriver.ml")
-    ok, log = make_targets(["ModelApi.vo"])
+    ok, log = make_targets(["ModelApi.vo", "KCheck.vo"])
     if not ok:
         return False, log
     dep = max(os.path.getmtime(os.path.join(COQ, "ModelApi.vo")), os.path.getmtime(src_driver), os.path.getmtime(os.path.join(COQ, "ExtractAll.v")))
@@ -294,3 +294,46 @@ def known_findings():
             if m:
                 out.append({"property": m.group(1), "key": m.group(2), "what": m.group(3)})
     return out
+
+
+def coqchk(pfile, timeout=3000):
+    """independent re-check of the compiled property file and everything it depends on; returns (ok, axioms text)"""
+    mod = "Bexpr." + pfile.replace(".v", "")
+    rc, o = sh(["coqchk", "-silent", "-o", "-Q", ".", "Bexpr", mod], cwd=COQ, timeout=timeout)
+    m = re.search(r"\* Axioms:\s*(.*?)(?=\n\s*\* |\Z)", o, re.S)
+    ax = " ".join(m.group(1).split()) if m else "?"
+    return rc == 0, ax, o[-1500:]
+
+
+def grammar_diff():
+    """first structural difference between the rule tables read from grammar.go and grammar.peg (both are printed in one
+    canonical layout, one node per line): (rule, line in rule, go text, peg text)"""
+    def rules(fn, name):
+        txt = open(os.path.join(COQ, fn)).read()
+        i = txt.find("Definition %s " % name)
+        if i < 0:
+            return None
+        j = txt.find("\n].", i)
+        return txt[i:j].split("\n")[1:]
+    a, b = rules("GoGrammar.v", "go_grammar"), rules("PegGrammar.v", "peg_grammar")
+    if a is None or b is None:
+        return {"difference": "a table could not be read"}
+    rule = "?"
+    for k in range(max(len(a), len(b))):
+        la = a[k] if k < len(a) else "<missing>"
+        lb = b[k] if k < len(b) else "<missing>"
+        m = re.search(r'rname := "([^"]*)"', la) or re.search(r'rname := "([^"]*)"', lb)
+        if m:
+            rule = m.group(1)
+        if la != lb:
+            return {"rule": rule, "node_line": k + 1, "grammar.go": la.strip(), "grammar.peg": lb.strip()}
+    ga = open(os.path.join(COQ, "GoGrammar.v")).read()
+    pa = open(os.path.join(COQ, "PegGrammar.v")).read()
+    A = re.findall(r'\("([A-Za-z0-9_]+)", (\[[^\]]*\]), (?:\[[^\]]*\], )?\n\s+(\[.*?\])\)[;\n]', ga[ga.find("Definition go_actions"):], re.S)
+    B = re.findall(r'\("([A-Za-z0-9_]+)", (\[[^\]]*\]),\n\s+(\[.*?\])\)[;\n]', pa[pa.find("Definition peg_actions"):], re.S)
+    for x, y in zip(A, B):
+        if x[0] != y[0] or x[-1] != y[-1]:
+            return {"action": x[0] + " / " + y[0], "grammar.go tokens": x[-1][:400], "grammar.peg tokens": y[-1][:400]}
+    if len(A) != len(B):
+        return {"difference": "%d action functions in grammar.go, %d code blocks in grammar.peg" % (len(A), len(B))}
+    return None
